@@ -75,6 +75,9 @@ var c05Allow = [][]string{nil, {"/w/outside/file.txt"}, {"/w/outside"}, {"../out
 type c05Case struct {
 	Links []linkShape `json:"links"`
 	Opts  packOpts    `json:"opts"`
+	// Warm: the Packer value has packed another source directory (at another
+	// depth, with links the same options allow there) before it packs /w/src
+	Warm bool `json:"packer_used_before_on_another_root"`
 }
 
 func c05Subst(s linkShape) (at, target string) {
@@ -109,7 +112,12 @@ func c05BuildWorld(c c05Case) error {
 	mustWrite("/w/src/sub/peer.txt", "inside sub peer\n", 0644)
 	mustWrite("/w/src/sub/deep/c.txt", "inside c\n", 0644)
 	mustWrite("/w/src/sub/deep/peer.txt", "inside deep peer\n", 0644)
-	os.Symlink("../outside/file.txt", "/w/src/hop")
+	for _, l := range c.Links {
+		if l.Name == "chain-in-to-out" {
+			// the intermediate link of the chain (itself an out-of-tree link)
+			os.Symlink("../outside/file.txt", "/w/src/hop")
+		}
+	}
 	for _, l := range c.Links {
 		at, target := c05Subst(l)
 		p := filepath.Join("/w/src", at)
@@ -178,8 +186,8 @@ func c05Facts(rel, target string, allow []string) linkFacts {
 }
 
 func c05Run(env *fw.Env, c c05Case) fw.Result {
-	res := fw.Result{Case: map[string]interface{}{"links": c.Links, "opts": c.Opts.String()}}
-	key := c.Opts.String()
+	res := fw.Result{Case: map[string]interface{}{"links": c.Links, "opts": c.Opts.String(), "packer_used_before_on_another_root": c.Warm}}
+	key := c.Opts.String() + fmt.Sprint(c.Warm)
 	for _, l := range c.Links {
 		key += "|" + l.At + "->" + l.Target
 	}
@@ -214,7 +222,22 @@ func c05Run(env *fw.Env, c c05Case) fw.Result {
 			res.NonTrivial = true
 		}
 	}
-	obs := doPack("/w/src", c.Opts)
+	var obs packObs
+	if c.Warm {
+		p, err := slug.NewPacker(c.Opts.options()...)
+		if err != nil {
+			return fw.Result{Verdict: fw.Inconclusive, Msg: err.Error()}
+		}
+		mustWrite("/w/warm/deeper/src/f.txt", "warm", 0644)
+		mustWrite("/w/warm/deeper/outside/dir/g", "OUTSIDE-warm", 0644)
+		mustWrite("/w/warm/deeper/outside/file.txt", "OUTSIDE-warm2", 0644)
+		os.Symlink("../outside/file.txt", "/w/warm/deeper/src/l")
+		os.Symlink("../outside/dir", "/w/warm/deeper/src/ld")
+		doPackWith(p, "/w/warm/deeper/src")
+		obs = doPackWith(p, "/w/src")
+	} else {
+		obs = doPack("/w/src", c.Opts)
+	}
 	if obs.Panic != "" {
 		res.Verdict, res.Finding, res.Class = fw.Violated, "pack-panic", "panic"
 		res.Msg = "Pack panicked: " + obs.Panic
@@ -419,11 +442,13 @@ func c05Phases() []*fw.Phase {
 	}
 	single := &fw.Phase{
 		Name: "exhaustive-single-link-shapes", Chroot: true, Exhaustive: true,
-		N: func(string) int { return len(shapes) * len(optsets) },
+		N: func(string) int { return len(shapes) * len(optsets) * 2 },
 		Run: func(env *fw.Env, idx int) fw.Result {
+			warm := idx >= len(shapes)*len(optsets)
+			idx %= len(shapes) * len(optsets)
 			s := shapes[idx%len(shapes)]
 			o := optsets[idx/len(shapes)]
-			r := c05Run(env, c05Case{Links: []linkShape{s}, Opts: o})
+			r := c05Run(env, c05Case{Links: []linkShape{s}, Opts: o, Warm: warm})
 			if r.Class != "" {
 				r.Class = s.Name + ":" + r.Class
 			}
@@ -448,7 +473,7 @@ func c05Phases() []*fw.Phase {
 				used[s.At] = true
 				ls = append(ls, s)
 			}
-			return c05Run(env, c05Case{Links: ls, Opts: optsets[r.Intn(len(optsets))]})
+			return c05Run(env, c05Case{Links: ls, Opts: optsets[r.Intn(len(optsets))], Warm: r.Chance(1, 3)})
 		},
 	}
 	return []*fw.Phase{single, combos}
@@ -459,7 +484,7 @@ func init() {
 		ID:    "C05",
 		Level: "exploration",
 		Rule: "a source tree with a prefix-sharing sibling (src / src-evil) and an outside area full of OUTSIDE-<n> canaries gets 1-6 links of 28 shapes (in-tree: same dir, via root, dir, dot, dangling, dotted; out-of-tree: relative file/dir/dangling, sibling-prefix, via the root's own name, absolute in/out, chains in->out, out->in, out->out, external directory with inner links, parent, root itself) at 3 depths; " +
-			"packed with {dereference on/off} x {ignore on/off} x 5 allow-list settings; the slug is decoded independently and every entry is compared with the tree and with the physical target of its link; slugs from all-relative trees are handed to Unpack. Exhaustive over single shapes x option sets, PRNG over combinations. " +
+			"packed with {dereference on/off} x {ignore on/off} x 5 allow-list settings x {fresh Packer, a Packer that packed another root at another depth before}; the slug is decoded independently and every entry is compared with the tree and with the physical target of its link; slugs from all-relative trees are handed to Unpack. Exhaustive over single shapes x option sets, PRNG over combinations. " +
 			"non-trivial = some link leaves the tree or approaches its boundary; distinct = links x options",
 		Assumptions: []string{"a link is out-of-tree when the place its target names, from the link's real location, is outside the source directory (component-wise)", "absolute links that point into the tree may be stored as absolute link entries (pinned by the repository's tests); such trees are exempt from the 'Unpack accepts' clause", "link cycles and links to special files belong to C19"},
 		Phases:      c05Phases(),
@@ -476,6 +501,11 @@ func init() {
 		Name: "overlapping-packs-on-one-shared-packer", Chroot: true,
 		N:   fw.Fixed(60, 1500),
 		Run: c20SharedPacker,
+	})
+	c20 = append(c20, &fw.Phase{
+		Name: "meta-when-the-writer-fails", Chroot: true,
+		N:   fw.Fixed(40, 600),
+		Run: c20FailingWriter,
 	})
 	fw.Register(&fw.Property{
 		ID:    "C20",
@@ -609,6 +639,76 @@ func c20SharedPacker(env *fw.Env, idx int) fw.Result {
 				res.Msg = fmt.Sprintf("tree %d, call %d on a Packer shared by %d goroutines: %s", i, k, n, msg)
 				return res
 			}
+		}
+	}
+	return res
+}
+
+// quotaWriter accepts n bytes, then fails.
+type quotaWriter struct {
+	buf  bytes.Buffer
+	left int
+}
+
+func (q *quotaWriter) Write(p []byte) (int, error) {
+	if len(p) > q.left {
+		n := q.left
+		q.buf.Write(p[:n])
+		q.left = 0
+		return n, fmt.Errorf("injected: quota exceeded")
+	}
+	q.left -= len(p)
+	return q.buf.Write(p)
+}
+
+// c20FailingWriter: whenever Pack returns a Meta without an error, the bytes
+// that reached the writer must be a slug that Meta describes - also when the
+// writer started failing at some point.
+func c20FailingWriter(env *fw.Env, idx int) fw.Result {
+	r := env.Rand(idx)
+	t := gen.RandomTree(r, gen.TreeOpts{MaxNodes: 12, MaxDepth: 3, Links: true, BigFiles: idx%5 == 0})
+	opts := allPackOpts[idx%len(allPackOpts)]
+	res := fw.Result{Hash: fw.HashString("fw" + t.Key() + opts.String()), NonTrivial: true, Class: "failing-writer", Case: map[string]interface{}{"tree": t.Strings(), "opts": opts.String()}}
+	src := "/c20w/src"
+	if err := freshDir("/c20w"); err != nil {
+		return fw.Result{Verdict: fw.Inconclusive, Msg: err.Error()}
+	}
+	if err := gen.Materialise(src, t); err != nil {
+		res.Class, res.NonTrivial = "tree-not-materialisable", false
+		return res
+	}
+	base := doPack(src, opts)
+	if base.Err != nil || base.Panic != "" {
+		res.Class, res.NonTrivial = "baseline-pack-failed", false
+		return res
+	}
+	L := len(base.Data)
+	p, _ := slug.NewPacker(opts.options()...)
+	limits := []int{0, 1, 9, 10, 11, 64, L / 2, L - 20, L - 9, L - 8, L - 1, L}
+	for i := 0; i < 12; i++ {
+		limits = append(limits, r.Intn(L+1))
+	}
+	for _, lim := range limits {
+		if lim < 0 {
+			continue
+		}
+		q := &quotaWriter{left: lim}
+		var o packObs
+		panicked, pv := fw.Try(func() { o.Meta, o.Err = p.Pack(src, q) })
+		res.Evals++
+		if panicked {
+			res.Verdict, res.Finding, res.Msg = fw.Violated, "pack-panic", pv
+			return res
+		}
+		if o.Err != nil {
+			continue
+		}
+		o.Data = q.buf.Bytes()
+		o.Entries, o.DecErr = mon.DecodeSlug(o.Data)
+		if msg := metaCheck(o); msg != "" {
+			res.Verdict, res.Finding = fw.Violated, "meta-for-unwritten-slug"
+			res.Msg = fmt.Sprintf("the writer accepted only %d of %d bytes, Pack returned a Meta and no error, but: %s", lim, L, msg)
+			return res
 		}
 	}
 	return res
